@@ -364,3 +364,93 @@ func VerifC03_IndexesFollowChildEntities() {
 	verifrt.Assert(err == nil, "C03 deleting / updating a child entity succeeds")
 	env.checkStateC03(&next, "C03 child entity after the operation")
 }
+
+// VerifC03_SeveralOpsPerTransaction: two operations in ONE transaction over two
+// slots (create / full update / delete, symbolic slot and symbolic unique
+// name): the second operation sees the first one's index changes (value reuse
+// after delete and value swaps inside a transaction); if either is rejected the
+// transaction is rolled back as a whole. Afterwards entities and indexes equal
+// the model's state.
+func VerifC03_SeveralOpsPerTransaction() {
+	cfg := vStoreCfg{nickNullable: true}
+	nSlots := 2
+	env := verifNewEnv(cfg)
+	defer env.close()
+	sp := verifSymSpecC03(cfg, vFocusName, nSlots)
+	env.build(sp)
+	type txOp struct {
+		kind, slot int
+		f          vSlot
+	}
+	nOps := 2
+	if verifrt.Tier() == 1 {
+		nOps = 3
+	}
+	ops := make([]txOp, nOps)
+	for k := range ops {
+		ops[k].kind = verifrt.Choose("op", 3)
+		ops[k].slot = verifrt.Choose("slot", nSlots)
+		if ops[k].kind != 2 {
+			ops[k].f = verifSymSlotFields("n", vFocusName, ops[k].slot, cfg)
+		}
+	}
+	cur := *sp
+	accept := true
+	for _, op := range ops {
+		j := op.slot
+		switch op.kind {
+		case 0:
+			ok := false
+			if !cur.slots[j].present {
+				ok, _ = cur.accepts(cfg, op.f, j)
+			}
+			if ok {
+				cur.slots[j] = op.f
+			} else {
+				accept = false
+			}
+		case 1:
+			ok := false
+			if cur.slots[j].present {
+				ok, _ = cur.accepts(cfg, op.f, j)
+			}
+			if ok {
+				cur.slots[j] = op.f
+			} else {
+				accept = false
+			}
+		case 2:
+			if cur.slots[j].present {
+				cur.slots[j] = vSlot{}
+			} else {
+				accept = false
+			}
+		}
+		if !accept {
+			break
+		}
+	}
+	err := env.update(func(ctx MutateContext) error {
+		for _, op := range ops {
+			var err error
+			switch op.kind {
+			case 0:
+				err = env.emp.Create(ctx, op.f.entity(vIds[op.slot]))
+			case 1:
+				err = env.emp.Update(ctx, op.f.entity(vIds[op.slot]), nil)
+			case 2:
+				err = env.emp.DeleteById(ctx, vIds[op.slot])
+			}
+			if err != nil {
+				return err
+			}
+		}
+		return nil
+	})
+	verifrt.Assert((err == nil) == accept, "C03 a transaction of several operations is accepted iff the model accepts each in turn")
+	if err != nil {
+		env.checkStateC03(sp, "C03 after a rejected transaction (unchanged)")
+		return
+	}
+	env.checkStateC03(&cur, "C03 after a transaction of several operations")
+}
